@@ -163,3 +163,43 @@ def model_bytes(model, sym):
         v = model.eval(b, model_completion=True)
         out.append(v.as_long())
     return out
+
+
+def single_string(aut, lexeme=None):
+    """if the automaton accepts exactly one string return it (bytes), else None"""
+    q = aut.init
+    out = []
+    seen = set()
+    while True:
+        if q in seen:
+            return None
+        seen.add(q)
+        is_acc = bool(aut.acc[q]) if lexeme is None else (lexeme in aut.acc[q])
+        row = [(lo, hi, t) for lo, hi, t in aut.rows[q] if t != 0]
+        if is_acc:
+            return bytes(out) if not row else None
+        if len(row) != 1 or row[0][0] != row[0][1]:
+            return None
+        out.append(row[0][0])
+        q = row[0][2]
+
+
+def shortest_accepted(aut, lexeme=None):
+    from collections import deque
+    dq = deque([(aut.init, b"")])
+    seen = {aut.init}
+    while dq:
+        q, s = dq.popleft()
+        if q != 0 and (bool(aut.acc[q]) if lexeme is None else lexeme in aut.acc[q]):
+            return s
+        for lo, hi, t in aut.rows[q]:
+            if t != 0 and t not in seen:
+                seen.add(t)
+                b = lo
+                # prefer printable ascii representatives
+                for cand in range(lo, hi + 1):
+                    if 0x21 <= cand <= 0x7e:
+                        b = cand
+                        break
+                dq.append((t, s + bytes([b])))
+    return None
